@@ -97,6 +97,86 @@ def _callee(term, by_id):
     return rp if rp in by_id else None
 
 
+def _count_uses(F, l, extra_blocks=()):
+    """Occurrences of local l in the body of F (any position), as a number."""
+    blob = json.dumps([F["blocks"], list(extra_blocks)])
+    return blob.count('"l": %d}' % l) + blob.count('"l": %d,' % l)
+
+
+def _forward_reference_arguments(F, G, bb, t, lo, pre, new_blocks):
+    """`helper(.., &mut x)` with `*p = v` / `*p` inside the helper: once the helper is inlined, the parameter is a pointer to the
+    caller's own local.  Where the argument is (a re-borrow of) a reference to a plain local of the caller, taken just for this call,
+    the inlined body is rewritten to name that local directly (`(*p)` -> `x`), so that rules following the variable see one variable."""
+    def resolve(l, seen):
+        defs = [(b_, s_) for b_ in F["blocks"] for s_ in b_["stmts"] if s_["k"] == "assign" and s_["lhs"]["l"] == l and not s_["lhs"].get("p")]
+        called = [b_ for b_ in F["blocks"] if b_["term"]["k"] == "call" and b_["term"]["dest"]["l"] == l]
+        if len(defs) != 1 or called or l in seen or l <= F.get("arg_count", 0):
+            return None
+        rv = defs[0][1]["rv"]
+        if rv.get("k") != "ref":
+            return None
+        pl = rv["pl"]
+        pr = pl.get("p", [])
+        if not pr:
+            return pl["l"], [defs[0]]
+        if pr == ["deref"]:
+            r = resolve(pl["l"], seen | {l})
+            if r is None:
+                return None
+            return r[0], r[1] + [defs[0]]
+        return None
+    for i, a in enumerate(t["args"]):
+        if a.get("k") != "move" or a["pl"].get("p") or not str(G["locals"][1 + i]["ty"]).startswith("&"):
+            continue
+        r = resolve(a["pl"]["l"], set())
+        if r is None:
+            continue
+        target, chain = r
+        param = lo + 1 + i
+        # the parameter must only ever be dereferenced in the callee (never copied, re-borrowed whole, passed on or compared)
+        ok = True
+
+        def scan(x):
+            nonlocal ok
+            if isinstance(x, dict):
+                if x.get("l") == param and "p" in x and x.get("p") and x["p"][0] == "deref":
+                    pass
+                elif x.get("l") == param and ("p" in x or len(x) == 1 or "ty" in x):
+                    ok = False
+                for v in x.values():
+                    scan(v)
+            elif isinstance(x, list):
+                for v in x:
+                    scan(v)
+        scan(new_blocks)
+        if not ok:
+            continue
+
+        def subst(x):
+            if isinstance(x, dict):
+                if x.get("l") == param and x.get("p") and x["p"][0] == "deref":
+                    x["l"] = target
+                    x["p"] = x["p"][1:]
+                    if not x["p"]:
+                        del x["p"]
+                for v in x.values():
+                    subst(v)
+            elif isinstance(x, list):
+                for v in x:
+                    subst(v)
+        subst(new_blocks)
+        # the binding of the parameter and the references taken just for the call are dead now
+        pre[:] = [s_ for s_ in pre if s_["lhs"]["l"] != param]
+        F["dbg"] = [d for d in F.get("dbg", []) if not (isinstance(d.get("pl"), dict) and d["pl"].get("l") == param)]
+        for b_, s_ in reversed(chain):
+            l_ = s_["lhs"]["l"]
+            b_["stmts"].remove(s_)
+            if _count_uses(F, l_, [pre, new_blocks]) > 0:
+                b_["stmts"].append(s_)        # still used elsewhere: keep it
+                break
+
+
+
 def _inline_one(F, G, bb):
     """Inline G at the call terminating block bb of F (raw dicts, mutated in place)."""
     t = F["blocks"][bb]["term"]
@@ -124,6 +204,7 @@ def _inline_one(F, G, bb):
         elif nt["k"] == "resume":
             if unwind is not None:
                 nb["term"] = {"k": "goto", "target": unwind, "sp": sp}
+    _forward_reference_arguments(F, G, bb, t, lo, pre, new_blocks)
     F.setdefault("absorbed", []).append(G["id"])
     for sp in [(G.get("file"), G.get("lo"), G.get("hi"))] + [tuple(x) for x in G.get("absorbed_spans", [])]:
         if sp not in [tuple(x) for x in F.setdefault("absorbed_spans", [])]:
@@ -246,6 +327,121 @@ def desugar_option_combinators(by_id, known):
 
 
 
+# ---- a few locals bundled into a new little struct ---------------------------------------------------------------------------------
+def scalar_replace_new_structs(by_id, ref_adts):
+    """`let mut prev = PreviousHunks { last_offset: 0, last_frozen_line: -1 }` ... `prev.last_offset` ... `prev = PreviousHunks { .. }`:
+    locals of a struct type the reference tree does not have, built only from aggregates (or moved whole into one another) and
+    otherwise touched field by field, are the same as one local per field.  They are split up (in the facts), the new locals carrying
+    the field names, so that rules following a variable meet plain variables again."""
+    n = 0
+    for fid, F in by_id.items():
+        adts = {}
+        for b in F["blocks"]:
+            for st in b["stmts"]:
+                rv = st.get("rv") or {}
+                if st["k"] == "assign" and not st["lhs"].get("p") and rv.get("k") == "agg" and rv.get("adt") and rv.get("fields") and \
+                        rv.get("variant") in (None, rv["adt"].split("::")[-1]) and rv["adt"].split("::")[0] in ("rapidquilt", "libpatch") and \
+                        rv["adt"] not in ref_adts and st["lhs"]["l"] > F.get("arg_count", 0):
+                    adts.setdefault(rv["adt"], (list(rv["fields"]), set()))[1].add(st["lhs"]["l"])
+        for adt, (fields, cands) in sorted(adts.items()):
+            # whole-value moves between locals of this type join the family
+            grew = True
+            while grew:
+                grew = False
+                for b in F["blocks"]:
+                    for st in b["stmts"]:
+                        rv = st.get("rv") or {}
+                        if st["k"] == "assign" and not st["lhs"].get("p") and rv.get("k") == "use" and rv["op"].get("k") in ("move", "copy") and \
+                                not rv["op"]["pl"].get("p"):
+                            a_, b_ = st["lhs"]["l"], rv["op"]["pl"]["l"]
+                            if (a_ in cands) != (b_ in cands) and min(a_, b_) > F.get("arg_count", 0):
+                                cands |= {a_, b_}
+                                grew = True
+            ok = True
+            ftys = {}
+
+            def is_whole(st):
+                rv = st.get("rv") or {}
+                if st["k"] != "assign" or st["lhs"].get("p") or st["lhs"]["l"] not in cands:
+                    return False
+                if rv.get("k") == "agg" and rv.get("adt") == adt and rv.get("fields") == fields:
+                    return True
+                return rv.get("k") == "use" and rv["op"].get("k") in ("move", "copy") and not rv["op"]["pl"].get("p") and rv["op"]["pl"]["l"] in cands
+
+            def scan(x):
+                nonlocal ok
+                if isinstance(x, dict):
+                    if x.get("l") in cands and ("p" in x or set(x) <= {"l", "ty"}):
+                        pr = x.get("p") or []
+                        if pr and isinstance(pr[0], dict) and "f" in pr[0] and pr[0].get("adt") == adt:
+                            ftys[pr[0]["f"]] = pr[0].get("fty")
+                        else:
+                            ok = False
+                    for v in x.values():
+                        scan(v)
+                elif isinstance(x, list):
+                    for v in x:
+                        scan(v)
+            for b in F["blocks"]:
+                for st in b["stmts"]:
+                    if is_whole(st):
+                        if st["rv"]["k"] == "agg":
+                            scan(st["rv"]["ops"])
+                    elif st["k"] == "assign":
+                        scan(st)
+                scan(b["term"])
+                if b["term"]["k"] == "call" and b["term"]["dest"].get("l") in cands and not b["term"]["dest"].get("p"):
+                    ok = False
+                if b["term"]["k"] == "drop" and isinstance(b["term"].get("pl"), dict) and b["term"]["pl"].get("l") in cands:
+                    ok = ok
+            if not ok:
+                continue
+            base = {}
+            for P in sorted(cands):
+                base[P] = len(F["locals"])
+                named = [j for j, d in enumerate(F.get("dbg", [])) if isinstance(d.get("pl"), dict) and d["pl"].get("l") == P and not d["pl"].get("p")]
+                for i, name in enumerate(fields):
+                    F["locals"].append({"ty": ftys.get(i) or "?", "mut": True})
+                if named:
+                    # the fields are declared where the struct was (rules and the renaming of locals go by declaration order)
+                    F["dbg"][named[0] + 1:named[0] + 1] = [{"name": name, "pl": {"l": base[P] + i}, "arg": None, "split_from": adt}
+                                                           for i, name in enumerate(fields)]
+            F["dbg"] = [d for d in F.get("dbg", []) if not (isinstance(d.get("pl"), dict) and d["pl"].get("l") in cands and not d["pl"].get("p"))]
+
+            def subst(x):
+                if isinstance(x, dict):
+                    if x.get("l") in cands and x.get("p") and isinstance(x["p"][0], dict) and "f" in x["p"][0]:
+                        x["l"] = base[x["l"]] + x["p"][0]["f"]
+                        x["p"] = x["p"][1:]
+                        if not x["p"]:
+                            del x["p"]
+                    for v in x.values():
+                        subst(v)
+                elif isinstance(x, list):
+                    for v in x:
+                        subst(v)
+            for b in F["blocks"]:
+                out = []
+                for st in b["stmts"]:
+                    if is_whole(st):
+                        P = st["lhs"]["l"]
+                        if st["rv"]["k"] == "agg":
+                            subst(st["rv"]["ops"])
+                            ops = st["rv"]["ops"]
+                        else:
+                            Q = st["rv"]["op"]["pl"]["l"]
+                            ops = [{"k": st["rv"]["op"]["k"], "pl": {"l": base[Q] + i}} for i in range(len(fields))]
+                        for i, op in enumerate(ops):
+                            out.append({"k": "assign", "lhs": {"l": base[P] + i}, "rv": {"k": "use", "op": op}, "sp": st.get("sp"), "split": adt})
+                    else:
+                        subst(st)
+                        out.append(st)
+                b["stmts"] = out
+                subst(b["term"])
+            n += 1
+    return n
+
+
 def apply(data, known=None):
     """data: {crate: {"fns": [...], ...}} as loaded from the fact files.  Returns the number of call sites inlined."""
     known = load_known() if known is None else known
@@ -255,6 +451,7 @@ def apply(data, known=None):
     for crate, d in data.items():
         for raw in d["fns"]:
             by_id[raw["id"]] = raw
+    scalar_replace_new_structs(by_id, load_adts())
     from . import renames as _ren
     LOCAL_RENAMES[:] = _ren.normalize_param_order(data, load_vars())
     LOCAL_RENAMES.extend(_ren.normalize_locals(data, load_vars()))
